@@ -82,7 +82,7 @@ fn mutator(rng: &mut Rng, scope: &Scope, v: &Var, siblings: &[Var]) -> Option<St
         Ty::S(i) => match STYS[*i].class {
             Class::Bool => SStmt::Tog(base),
             Class::Int => {
-                let k = if STYS[*i].st == "SINT" { 1 } else { rng.range(1, 3) };
+                let k = if STYS[*i].io == Some('B') { 1 } else { rng.range(1, 3) };
                 SStmt::Inc(base, k, *i)
             }
             Class::Lit => {
@@ -561,7 +561,7 @@ fn io_raw(rng: &mut Rng, a: &Addr) -> u64 {
     // typed increments of the generated programs cannot overflow within one history
     match a.size {
         'X' => rng.below(2),
-        'B' => *rng.pick(&[0u64, 1, 30, 128, 129]),
+        'B' => *rng.pick(&[0u64, 1, 30, 128, 130]),
         'W' => *rng.pick(&[0u64, 1, 300, 32768, 40000]),
         'D' => *rng.pick(&[0u64, 7, 70000, 0x8000_0000, 0x8000_0010]),
         _ => *rng.pick(&[0u64, 9, 5_000_000_000, 0x8000_0000_0000_0000]),
